@@ -300,12 +300,16 @@ func (sc *specCtx) lv(e ast.Expr, subs map[string]SpecExpr) (LV, bool) {
 					if obj, ok := sc.lookupLocal(id.Name); ok {
 						if pn, ok := obj.(*types.PkgName); ok {
 							if o, ok := pn.Imported().Scope().Lookup(name).(*types.Var); ok {
-								return sc.u.varLV(sc.cur, o), true
+								lv := sc.u.varLV(sc.cur, o)
+								sc.u.sentinelFacts(sc.st, o, sc.u.load(sc.cur, lv))
+								return lv, true
 							}
 						}
 					} else if p := sc.u.eng.lookupPkg(id.Name); p != nil {
 						if o, ok := p.Scope().Lookup(name).(*types.Var); ok {
-							return sc.u.varLV(sc.cur, o), true
+							lv := sc.u.varLV(sc.cur, o)
+							sc.u.sentinelFacts(sc.st, o, sc.u.load(sc.cur, lv))
+							return lv, true
 						}
 					}
 				}
@@ -664,6 +668,16 @@ func (sc *specCtx) call(x *ast.CallExpr, subs map[string]SpecExpr) Value {
 	case "bytes": // bytes(slice): abstract byte string of a []byte
 		v := arg(0)
 		return sc.bytesOf(v)
+	case "base": // base(s): identity of the backing array of slice s
+		v := arg(0)
+		if !v.isSlice() {
+			sc.errorf("base() of non-slice")
+		}
+		return intV(v.base())
+	case "blen": // blen(b): length of an abstract byte string
+		v := arg(0)
+		f := u.d.Fun("blen", []Sort{Sort("Bytes")}, SInt)
+		return intV(App(f, SInt, v.term()))
 	case "ref": // the reference leaf of a pointer/interface value as an integer
 		v := arg(0)
 		return intV(v.L[0])
